@@ -1025,7 +1025,7 @@ Qed.
 Lemma builder_closed : forall c l sh, builder_of_code c l = Ok sh -> incl (endpoints (edges_of sh)) l.
 Proof.
   intros c l sh H. unfold builder_of_code in H.
-  destruct c as [|[|[|[|[|[|[|[|c]]]]]]]].
+  destruct c as [|[|[|[|[|[|[|[|[|c]]]]]]]]].
   - now apply clique_closed.
   - now apply cycle_closed.
   - now apply diamond_closed.
@@ -1039,6 +1039,8 @@ Proof.
   - inversion H; subst. intros v [].
   - unfold path2_motif in H. destruct l as [|a [|b [|c' t]]]; inversion H; subst.
     intros v Hv. cbn in Hv. cbn. intuition.
+  - unfold clique_noloop_motif in H. inversion H; subst. cbn [edges_of]. apply endpoints_incl.
+    intros a b Hab. apply filter_In in Hab. apply combos2_in. exact (proj1 Hab).
   - discriminate.
 Qed.
 
